@@ -46,7 +46,7 @@ theorem curvParts_four_points_witness :
 
 /-- mirror image `x ↦ −x`: every numerator changes sign, speeds and segment lengths are kept — the turning of the
     mirrored interface is the negative -/
-theorem curvParts_reflect (pts : List Pt) :
+theorem c04_curvParts_reflect (pts : List Pt) :
     (curvParts (reflectPts pts)).num = (curvParts pts).num.map (- ·) ∧
     (curvParts (reflectPts pts)).speedSq = (curvParts pts).speedSq ∧
     (curvParts (reflectPts pts)).segSq = (curvParts pts).segSq :=
@@ -137,7 +137,7 @@ theorem curvParts_similarity (a b : Rat) (pts : List Pt) :
   curvParts_similarity' a b pts
 
 /-- a rotation leaves all ingredients of the turning estimate exactly unchanged -/
-theorem curvParts_rotate (a b : Rat) (h : a * a + b * b = 1) (pts : List Pt) :
+theorem c04_curvParts_rotate (a b : Rat) (h : a * a + b * b = 1) (pts : List Pt) :
     curvParts (simPts a b pts) = curvParts pts :=
   curvParts_rotate' a b h pts
 
